@@ -32,6 +32,8 @@
    Timeout(p, j)               the responsible gives up on the request (RequestTimeout, or the cancel()
                                consultQuorum issues after the first error) but the request is still in
                                the network
+   Cancel(p, j)                after the first error consultQuorum cancels the outstanding requests: each
+                               counts as an error for the round; the request may still reach the juror
    DeliverLate(msg)            such a request is executed by the juror after the responsible moved on
                                (its effect on approvals stays, the reply goes nowhere)
    Retry(p)                    consultQuorum returned an error (any juror rejected / failed): continue
@@ -169,6 +171,14 @@ Timeout(p, j) ==
   /\ resp' = [resp EXCEPT ![p].bad = @ \cup {j}]
   /\ UNCHANGED <<nodeKey, view, unhealthy, approvals, net, attempts, admitted>>
 
+\* consultQuorum calls cancel() after the first error: every outstanding Send returns the context error.
+\* Not a fault but what the code does; the request itself may still reach the juror later.
+Cancel(p, j) ==
+  /\ resp[p].st = "wait" /\ resp[p].bad # {} /\ j \in Pending(p)
+  /\ resp' = [resp EXCEPT ![p].bad = @ \cup {j}]
+  /\ net' = IF "late" \in Faults THEN net ELSE net \ {Msg(p, j)}
+  /\ UNCHANGED <<nodeKey, view, unhealthy, approvals, attempts, admitted>>
+
 IsLate(msg) == ~(resp[msg.p].st = "wait" /\ attempts[msg.p] = msg.a /\ resp[msg.p].round = msg.r
                 /\ msg.to \in Pending(msg.p))
 DeliverLateAt(msg, x) ==
@@ -211,7 +221,7 @@ Next ==
        \/ \E m \in Proc : Start(p, m)
        \/ resp[p].st = "propose" /\ \E q \in SUBSET Healthy(resp[p].via) : Propose(p, q)
        \/ GiveUp(p) \/ Retry(p) \/ Admit(p) \/ Join(p)
-       \/ \E j \in resp[p].quorum : Deliver(p, j) \/ DeliverLost(p, j) \/ Fail(p, j) \/ Timeout(p, j)
+       \/ \E j \in resp[p].quorum : Deliver(p, j) \/ DeliverLost(p, j) \/ Fail(p, j) \/ Timeout(p, j) \/ Cancel(p, j)
   \/ \E msg \in net : DeliverLate(msg)
   \/ \E m \in Proc, k \in 1..MaxKey : Learn(m, k)
 
